@@ -3,9 +3,9 @@ CLAIMED['C15'] = dict(
 	     '(all sizes); and for |A or B| <= 2^24 (which C15_small_k proves for every k <= 12): 0 <= d <= 1, d = 0 iff A = B, '
 	     'd = 1 iff disjoint and not both empty, triangle inequality d(A,C) <= d(A,B)+d(B,C)+2^-22 (exact Jaccard triangle '
 	     'inequality on the seven Venn-region counts by nia, plus |round x - x| <= 2^-24 on [0,1]); the exact ratios '
-	     'satisfy the triangle inequality with no slack for all sizes; width independence. PARTIAL: adding a common '
-	     'k-mer strictly decreases the exact ratio and does not increase the reported binary32 value '
-	     '(C15_add_common_partial); strict decrease of the binary32 value is explored by the harness, not proved. '
+	     'satisfy the triangle inequality with no slack for all sizes; width independence; adding a k-mer absent from '
+	     'both (different) sets strictly decreases the reported binary32 value when |A or B|+1 <= 2^23 (C15_add_common, '
+	     'via Flocq relative error bounds) and never increases it up to 2^24 (C15_add_common_weak). '
 	     'Correspondence: every axiom evaluated exactly on the compiled kernel for all triples of subsets of a '
 	     '4/5-element universe in all width combinations and random large triples. Known findings C15-f1, C15-f2 (beyond '
 	     'the size bound the statements are false of binary32 itself).',
